@@ -1,12 +1,14 @@
 CONSTANTS
  Topics = {"u","t:u"}
- Groups = {"g","g:t"}
+ Groups = {"g","g:t","g%3At"}
  ColonNames = {"t:u","g:t"}
  SlashNames = {}
+ PercentNames = {"g%3At"}
+ DeadVariants = {3}
  MaxParts = 2
  Offs = {0,1}
  Metas = {"m"}
- Variants = {1,2}
+ Variants = {1}
  TimeoutVariants = {1}
  CfgVariants = {1}
  ToolNames = {"fetch_offsets"}
@@ -21,6 +23,9 @@ CONSTANTS
  DevFetchDefaultZero = FALSE
  DevCommitUnchecked = FALSE
  DevToolWrites = FALSE
+ DevToolReaps = FALSE
+ DevEscapeFastPath = FALSE
+ DevEtcdDeletePrefix = FALSE
 INIT Init
 NEXT NextCoord
 INVARIANTS C16_ReadBack C16_NeverCommitted C16_Isolation
